@@ -158,7 +158,8 @@ def handler(case):
             pr = case["prof"][j % len(case["prof"])]
             b.pload_data = [np.array([float(F(x)) for x in pr])]
             b.qload_data = [np.array([float(F(x)) / 2 for x in pr])]
-        for P in ps.productions:
+        prods = [b.prod for b in ps.buses if getattr(b, "prod", None) is not None]      # the units themselves, not the system's registry of them
+        for P in prods:
             P.pprod_data = np.array([float(F(x)) for x in case["prof"][-1]]); P.qprod_data = np.array([float(F(x)) / 4 for x in case["prof"][-1]])
         st = case["start"]; total = st[0] * 1440 + st[1] * 60 + st[2] + case["period_min"]
         start = TimeStamp(day=st[0], hour=st[1], minute=st[2])
@@ -183,19 +184,27 @@ def handler(case):
                 viols.append(("prepare.system-values", f"{what}: load profile of {b.name} is {got[:6]}..., the resampling rule gives {want[:6]}..."))
             if viols:
                 break
-        for P in ps.productions:
+        for P in prods:
             got = [float(x) for x in P.pprod_data]
             want = [float(x) for x in rows[-1]] if n else []
             if len(got) != n or any(abs(a - w) > 1e-9 * max(1, abs(w)) for a, w in zip(got, want)):
                 viols.append(("prepare.system-prod", f"{what}: production profile of {P.name} is {got[:6]}... ({len(got)} values), the resampling rule gives {want[:6]}..."))
+            elif n:
+                # ... and the system dispatches the unit in every increment: profile value capped at the rating
+                for i in sorted({0, n // 2, n - 1}):
+                    ps.set_prod(inc_idx=i)
+                    wantp = min(want[i], float(P.pmax))
+                    if abs(float(P.pprod) - wantp) > 1e-9 * max(1, abs(wantp)):
+                        viols.append(("prepare.system-dispatch", f"{what}: in increment {i} the system sets the production of {P.name} to {P.pprod}, profile value capped at the rating is {wantp}"))
+                        break
         # correspondence with the model's prepare_system (C19.prepare_one_value_per_increment): the model decides the number of
         # increments itself; compared: that number and the length of every resampled profile (values: oracle above, floats)
         pops = ["prof prepare " + f"{fr(F(case['period_min'], 60))} {fr(F(case['step_min'], 60))} 1 " + " ".join(flist([F(x) for x in pr]) for pr in case["prof"])]
-        lens = [len(b.pload_data[0]) for b in loads[:2]] + [len(P.pprod_data) for P in ps.productions[:1]]
+        lens = [len(b.pload_data[0]) for b in loads[:2]] + [len(P.pprod_data) for P in prods[:1]]
         pimpl = [f"{n} " + " ".join(str(x) for x in lens)]
         case["_nprof"] = len(lens)
         return dict(ops=pops, impl=pimpl, viols=viols[:3],
-                    nontrivial=("prepare-system", case["period_min"] % case["step_min"] == 0, u, min(n, 30), bool(ps.productions)), tag="prepare-system")
+                    nontrivial=("prepare-system", case["period_min"] % case["step_min"] == 0, u, min(n, 30), bool(prods)), tag="prepare-system")
     if k == "prepare-prod":
         # the whole production path: add_prod_data, prepare_prod_data (resampling), then set_prod in every increment:
         # production = min(resampled profile value, rating)  -  capping and resampling do not commute
